@@ -6,4 +6,5 @@ CONSTANTS
   MaxEnv = 5
   MaxLife = 1
 INVARIANTS TypeOK InvNoExtra InvFresh InvBacked InvArmed InvOneNote InvCompleteNoData
+PROPERTY HealsOnChildRun
 CHECK_DEADLOCK FALSE
